@@ -36,7 +36,12 @@ const errorBodySizeLimit = 8 * 1024
 func makeError(resp *http.Response) error {
 	var data []byte
 	var err error
-	if resp.Body != nil {
+	if resp.StatusCode < 200 {
+		// An informational response doesn't have a body: for
+		// 101 (Switching Protocols), what net/http provides as the body
+		// is the connection itself, on which nothing might ever arrive.
+		err = fmt.Errorf("unexpected informational response")
+	} else if resp.Body != nil {
 		data, err = io.ReadAll(io.LimitReader(resp.Body, errorBodySizeLimit+1))
 		if err != nil {
 			err = fmt.Errorf("cannot read error body: %v", err)
